@@ -24,7 +24,7 @@ for pid in props:
     })
 try:
     commits = subprocess.run(["git", "-C", "/repo", "log", "--format=%h %s"], capture_output=True, text=True).stdout.splitlines()
-    hook_commits = [l.split()[0] for l in commits if l.split(" ", 1)[1].startswith("verif hooks")]
+    hook_commits = [l.split()[0] for l in commits if l.split(" ", 1)[1].startswith("verif hook")]
 except Exception:
     hook_commits = []
 m = {
@@ -33,7 +33,7 @@ m = {
     "hooks": {
         "guard": "BEE2_VERIF",
         "enable": "vlib/build.py compiles /repo/src directly with -DBEE2_VERIF plus one sub-flag per hook "
-                  "(-DBEE2_VERIF_EXACT_BLOB, -DBEE2_VERIF_W32, -DBEE2_VERIF_YIELD) for the configurations that need it; "
+                  "(-DBEE2_VERIF_EXACT_BLOB, -DBEE2_VERIF_W32, -DBEE2_VERIF_YIELD, -DBEE2_VERIF_BLOB_COUNT) for the configurations that need it; "
                   "Release configurations used for C14/C19 carry no define",
         "baseline_off_cmd": "scripts/baseline.sh",
         "source_commits": hook_commits,
